@@ -189,6 +189,155 @@ def layout_lines(rows):
     return out
 
 
+def table_regions(path, lst, iset):
+    """text of the tables of full result set iset without the reader's set-up.  TOUGH2 family / TOUGH+: per table in
+    file order the lines from its header line (a token INDEX or IND.) to its end (an @@@@@ line, a different header, or
+    the end of the set).  AUTOUGH2: per table letter the lines after the table's second keyword line up to its closing one."""
+    data = open(path, 'rb').read()
+    start = lst._fullpos[iset]
+    later = [p for p in list(lst._pos) + [len(data)] if p > start]
+    lines = data[start:min(later)].decode('latin-1').split('\n')
+    if lst.simulator == 'AUTOUGH2':
+        out = {}
+        kw = [(ln, l[1:6]) for ln, l in enumerate(lines) if l[1:6] in ('EEEEE', 'CCCCC', 'GGGGG')]
+        for K in 'ECG':
+            ks = [ln for ln, w in kw if w == K * 5]
+            if K == 'E' and len(ks) >= 2: out['E'] = lines[ks[0] + 1:ks[1]]       # the first EEEEE line lies before _pos
+            elif K != 'E' and len(ks) >= 3: out[K] = lines[ks[1] + 1:ks[2]]
+        return out
+    tables, cur, hdr = [], None, None
+    for l in lines:
+        toks = l.split()
+        if 'INDEX' in toks or 'IND.' in toks:
+            if cur is None or toks != hdr:
+                cur = [l]; tables.append(cur); hdr = toks
+            else: cur.append(l)
+            continue
+        if l[1:6] == '@@@@@' or l.startswith('@@@@@'):
+            cur, hdr = None, None; continue
+        if cur is not None: cur.append(l)
+    return tables
+
+
+def fval_to_float(tok):
+    """the model's exact decimal -> the double float() gives for it (correctly rounded, like the reader's float(text))"""
+    p = tok.split()
+    if p[0] == 'F': return float('%s%se%s' % ('-' if p[1] == '1' else '', p[2], p[3]))
+    if p[0] == 'INF': return float('-inf' if p[1] == '1' else 'inf')
+    if p[0] == 'NAN': return float('nan')
+    return tok
+
+
+def values_correspondence(pl, lst, names, sim, kinds_full, repeated, limit):
+    """The VALUE history() returns, computed by the extracted model from the TEXT of the table (skip_to_results_line,
+    readline counting to the line index, read_table_line, column) against the real call: per table, at the first and the
+    last result set, about 60 rows (every k-th, first, last, the repeated ones) x rotating columns, two rows in full."""
+    out = {'tables': 0, 'values': 0, 'skipped': {}, 'disagreements': []}
+    n = lst.num_fulltimes
+    for iset in sorted(set([0, n - 1])):
+        try: regs = table_regions(pl['path'], lst, iset)
+        except Exception as e:
+            out['skipped']['set %d' % iset] = 'scan failed: %r' % e; continue
+        set_names = reader_names(sim, kinds_full[iset])
+        if sim != 'AUTOUGH2':
+            def klass(region):
+                h = region[0].split()
+                if h[:2] in (['ELEM1', 'ELEM2'],): return 'connection'
+                if len(h) > 1 and h[1] == 'SOURCE': return 'generation'
+                if h[0] in ('ELEM.', 'ELEM') and h[1] in ('INDEX', 'IND.'): return 'primary' if len(h) > 2 and h[2] == 'X1' else 'element'
+                return None
+            regs = [g for g in regs if klass(g)]          # e.g. a balance table at the end of the run is no result table
+            if [klass(g) for g in regs] != [re.sub(r'\d+$', '', x) for x in set_names]:
+                out['skipped']['set %d' % iset] = 'tables found by the scan %r, read by the reader %r' % ([klass(g) for g in regs], set_names); continue
+        for ti, nm in enumerate(set_names):
+            if nm not in names or not nav.table_spec(nm): continue
+            t = getattr(lst, nm)
+            region = regs.get(nm[0].upper()) if sim == 'AUTOUGH2' else regs[ti]
+            if not region or any('\t' in l or '\x1f' in l for l in region):
+                out['skipped']['%s@%d' % (nm, iset)] = 'no text region / separator character in the text'; continue
+            nr, cols = t.num_rows, t.column_name
+            if nr == 0: continue
+            k = max(1, nr // 40)
+            rows = sorted(set(list(range(0, nr, k)) + [nr - 1] + (repeated.get(nm, {}).get('differ', []) + repeated.get(nm, {}).get('same', []))[:40]))
+            items = [(r, (r // k) % len(cols)) for r in rows] + [(r, c) for r in (0, nr - 1) for c in range(len(cols))]
+            sel = [(nav.table_spec(nm), r, cols[c]) for r, c in items]
+            l3 = nav.open_listing(pl['path'])
+            st, res = call_history(l3, sel, False, max(limit, 20.0))
+            try: l3.close()
+            except Exception: pass
+            if st != 'ok' or res is None: out['skipped']['%s@%d' % (nm, iset)] = 'real call: %s' % st; continue
+            res = [res] if len(sel) == 1 else list(res)
+            ef = lst.table_expected_floats(nm, cols)
+            vals = t.row_format['values']
+            rl = t.row_line
+            line = '\t'.join(['vals', '%d,%d,%s' % (ef, t.num_columns, ('%d' % vals[0]) if sim == 'AUTOUGH2' else '-1'), ''.join('%d,' % v for v in vals),
+                               '\x1f'.join(l.rstrip('\r') if False else l for l in region), ''.join('%d,%d,0;' % ((rl[r] if rl else r), c) for r, c in items)])
+            p = subprocess.run([pl['exe']], input=line + '\n', stdout=subprocess.PIPE, stderr=subprocess.PIPE, text=True, timeout=600, encoding='latin-1',
+                               env=dict(os.environ, OCAMLRUNPARAM='l=8G'))
+            if p.returncode != 0: raise RuntimeError('model driver failed: ' + p.stderr[-1000:])
+            toks = p.stdout.rstrip('\n').split(';')[:-1]
+            if len(toks) != len(items): raise RuntimeError('model driver returned %d values for %d items' % (len(toks), len(items)))
+            out['tables'] += 1
+            for (r, c), tok, (tt, vv) in zip(items, toks, res):
+                mv = fval_to_float(tok)
+                rv = float(vv[iset]) if len(vv) == n else None
+                out['values'] += 1
+                same = isinstance(mv, float) and rv is not None and (mv == rv and math.copysign(1, mv) == math.copysign(1, rv) or (mv != mv and rv != rv))
+                if not same and len(out['disagreements']) < 6:
+                    out['disagreements'].append({'case': dict(pl['inp'], table=nm, result_set=iset, selection=nav.sel_to_json([(nav.table_spec(nm), r, cols[c])])),
+                                                 'model': 'value from the text of the table: %r (%s)' % (mv, tok), 'impl': 'history() value at that result set: %r' % rv})
+                if not same: out['n_disagreements'] = out.get('n_disagreements', 0) + 1
+    # AUTOUGH2 short output: the same computation on the text of a short table (line index = the row's short index)
+    shorts = [bool(x) for x in lst._short]
+    if sim == 'AUTOUGH2' and any(shorts):
+        data = open(pl['path'], 'rb').read()
+        pos = list(lst._pos) + [len(data)]
+        sp = [p for p, x in enumerate(shorts) if x]
+        for p_ in sorted(set([sp[0], sp[-1]])):
+            first = data[:pos[p_]].decode('latin-1').rstrip('\n').split('\n')[-1]
+            lines = [first] + data[pos[p_]:pos[p_ + 1]].decode('latin-1').split('\n')
+            for kw_ in lst.short_types:
+                nm = {'E': 'element', 'C': 'connection', 'G': 'generation'}[kw_[0]]
+                if nm not in names: continue
+                t = getattr(lst, nm)
+                ks = [x for x, l in enumerate(lines) if l[1:7] == kw_][:3]
+                if len(ks) < 3: out['skipped']['%s short@%d' % (nm, p_)] = 'keyword lines not found'; continue
+                region = lines[ks[1] + 1:ks[2]]
+                if any('\t' in l or '\x1f' in l for l in region): continue
+                si = sorted(lst.short_indices.get(kw_, {}).items())
+                if not si: continue
+                k = max(1, len(si) // 40)
+                cols = t.column_name
+                items = [(r, ish, (x // k) % len(cols)) for x, (r, ish) in enumerate(si) if x % k == 0 or x == len(si) - 1]
+                sel = [(nav.table_spec(nm), r, cols[c]) for r, _, c in items]
+                l3 = nav.open_listing(pl['path'])
+                st, res = call_history(l3, sel, True, max(limit, 20.0))
+                try: l3.close()
+                except Exception: pass
+                if st != 'ok' or res is None: out['skipped']['%s short@%d' % (nm, p_)] = 'real call: %s' % st; continue
+                res = [res] if len(sel) == 1 else list(res)
+                vals = t.row_format['values']
+                line = '\t'.join(['vals', '%d,%d,%d' % (lst.table_expected_floats(nm, cols), t.num_columns, vals[0]), ''.join('%d,' % v for v in vals),
+                                   '\x1f'.join(region), ''.join('%d,%d,0;' % (ish, c) for _, ish, c in items)])
+                pr = subprocess.run([pl['exe']], input=line + '\n', stdout=subprocess.PIPE, stderr=subprocess.PIPE, text=True, timeout=600, encoding='latin-1',
+                                    env=dict(os.environ, OCAMLRUNPARAM='l=8G'))
+                if pr.returncode != 0: raise RuntimeError('model driver failed: ' + pr.stderr[-1000:])
+                toks = pr.stdout.rstrip('\n').split(';')[:-1]
+                if len(toks) != len(items): raise RuntimeError('model driver returned %d values for %d items' % (len(toks), len(items)))
+                out['tables'] += 1; out['short_tables'] = out.get('short_tables', 0) + 1
+                for (r, ish, c), tok, (tt, vv) in zip(items, toks, res):
+                    mv = fval_to_float(tok)
+                    rv = float(vv[p_]) if len(vv) == len(shorts) else None
+                    out['values'] += 1
+                    same = isinstance(mv, float) and rv is not None and (mv == rv and math.copysign(1, mv) == math.copysign(1, rv) or (mv != mv and rv != rv))
+                    if not same:
+                        out['n_disagreements'] = out.get('n_disagreements', 0) + 1
+                        if len(out['disagreements']) < 6:
+                            out['disagreements'].append({'case': dict(pl['inp'], table=nm, short_output_position=p_, selection=nav.sel_to_json([(nav.table_spec(nm), r, cols[c])])),
+                                                         'model': 'value from the text of the short table: %r (%s)' % (mv, tok), 'impl': 'history(short=True) value at that position: %r' % rv})
+    return out
+
+
 def repeated_rows(path, lst, names):
     """per table name: row numbers printed more than once at the first result set, those whose copies differ first
     (TOUGH2_MP prints a connection once per processor sub-domain).  The row number of a printed INDEX is its rank among
@@ -395,6 +544,9 @@ def run_file(pl):
                 elif sk != list(t.skiplines)[:len(sk)] or len(t.skiplines) != len(sk) + 1: what = ('skiplines %r...' % sk[:8], 'skiplines %r...' % list(t.skiplines)[:8])
                 elif not part: what = ('row names follow the last printed line of each index', 'row names differ from that')
                 if what: res['row_disagreements'].append({'case': dict(pl['inp'], table=nm), 'model': what[0], 'impl': what[1]})
+    res['values'] = None
+    if pl.get('exe') and pl.get('calls') is None:
+        res['values'] = values_correspondence(pl, lst, names, sim, kinds_full, repeated, 20.0)
     # --- stepping: visit every result time in turn and read every cell any selection asks for
     cells = {}
     for c in calls:
@@ -748,6 +900,7 @@ def collect(ctx, results, timeout):
     sims = {}
     hyp = {}
     ntab_rows = 0
+    nval_tables = nvals = 0
     for j, r, err in results:
         if err == 'timeout':
             ctx.failure('history-terminates', 'history:worker-timeout', j['inp'], 'the history calls on %s did not finish within %d s although each runs under its own limit' % (j['label'], timeout), 'every call returns')
@@ -768,6 +921,12 @@ def collect(ctx, results, timeout):
         for d in r['disagreements']: ctx.disagreement('history-model-vs-t2listing', d['case'], d['model'], d['impl'])
         for d in r.get('row_disagreements', []): ctx.disagreement('row_line-model-vs-setup_table', d['case'], d['model'], d['impl'])
         ntab_rows += r.get('row_tables', 0)
+        if r.get('values'):
+            v = r['values']
+            nval_tables += v['tables']; nvals += v['values']
+            for d in v['disagreements']: ctx.disagreement('values-from-text-vs-history', d['case'], d['model'], d['impl'])
+            if v.get('n_disagreements', 0) > len(v['disagreements']): ctx.corr['values-from-text-vs-history']['n_disagreements'] += v['n_disagreements'] - len(v['disagreements'])
+            if v['skipped']: ctx.extra.setdefault('values_tables_skipped', {})[j['label']] = v['skipped']
         if r.get('repeated_rows'): ctx.extra.setdefault('repeated_rows', {})[j['label']] = r['repeated_rows']
         if r.get('repeated_rows_scan_note'): ctx.extra.setdefault('tables_the_line_scan_could_not_match', {})[j['label']] = r['repeated_rows_scan_note']
         if r.get('n_disagreements', 0) > len(r['disagreements']):
@@ -779,6 +938,7 @@ def collect(ctx, results, timeout):
                                                             'time_limit_s': r['limit'], 'set_shapes': r['sets'], 'wall_s': r['wall']}
     ctx.corr_cases('history-model-vs-t2listing', ncalls, files=len(results), **{k: v for k, v in tot.items()})
     ctx.corr_cases('row_line-model-vs-setup_table', ntab_rows)
+    ctx.corr_cases('values-from-text-vs-history', nvals, tables=nval_tables)
     ctx.oracle_cases('history-eq-stepping', tot.get('ok', 0), items=tot.get('items', 0), values=tot.get('values', 0))
     ctx.oracle_cases('history-terminates', ncalls, timeouts=tot.get('timeout', 0))
     ctx.oracle_cases('history-restores-state', tot.get('ok', 0))
